@@ -677,6 +677,10 @@ class Engine:
             if isinstance(so, UnionS):
                 idx = [i for i, alt in enumerate(so.alts) if isinstance(alt, NoneS)]
                 return z3.Or([o.d[0] == i for i in idx]) if idx else z3.BoolVal(False)
+            if isinstance(so, ConcS) and isinstance(o.d, MatchObj):
+                return o.d.isnone           # the result of Pattern.match: None iff no match
+            if isinstance(so, ConcS) and not isinstance(o.d, (type(None),)) and not hasattr(o.d, "isnone"):
+                return z3.BoolVal(o.d is None)
             return z3.BoolVal(False)
         if isinstance(sa, EnumS) and isinstance(sb, EnumS):
             return self.py_eq(a, b)
